@@ -117,6 +117,13 @@ inline std::string repair_utf8(std::string_view s) {
   return out;
 }
 
+// largest code point boundary <= pos (so that insertions never split a sequence)
+inline size_t utf8_boundary(std::string_view s, size_t pos) {
+  if (pos > s.size()) pos = s.size();
+  while (pos > 0 && pos < s.size() && ((unsigned char)s[pos] & 0xC0) == 0x80) pos--;
+  return pos;
+}
+
 inline uint64_t fnv1a(std::string_view s, uint64_t h = 1469598103934665603ULL) {
   for (unsigned char c : s) { h ^= c; h *= 1099511628211ULL; }
   h ^= 0xff; h *= 1099511628211ULL;  // field separator
